@@ -92,20 +92,36 @@ def chart_of(tracks_spec, res=192):
     big = any(t > 10**9 for _, ticks in tracks_spec for t in ticks)
     truth = {"resolution": res, "tempos": [[0, gen.usable_n(120000 if not big else 10**9)], [4, gen.usable_n(150000 if not big else 10**9 - 1)]],
              "timesigs": [[0, 4, None]], "tracks": tracks}
-    return gen.render_truth(truth)
+    case = gen.render_truth(truth)
+    # special phrases of other kinds on and around the note ticks: they are not star power
+    secs = []
+    for j, (name, body) in enumerate(case["sections"]):
+        if name not in ("Song", "SyncTrack", "Events") and j % 3 == 0 and body:
+            t0 = tracks_spec[(j - 3) % len(tracks_spec)][1][0] if tracks_spec[(j - 3) % len(tracks_spec)][1] else 0
+            body = [f"  {t0} = S 0 50", f"  {t0} = S 1 50", f"  {max(0, t0 - 1)} = S 64 9"] + list(body)
+        secs.append((name, body))
+    case["sections"] = [[n, b] for n, b in secs]
+    case["text"] = gen.render_sections(secs)
+    return case
 
 
 KEEP = None
+
+
+def sp_list(p, kind):
+    """"the recorded index identifies the first such phrase in the track's star-power list": that list (what
+    instrument_track.star_power_events holds, in file order) belongs to this property's observation too"""
+    return p == "C07" and kind == "starpower"
 
 
 def run_specs(rec, specs):
     for i in range(0, len(specs), 40):
         chunk = specs[i:i + 40]
         case = chart_of(chunk)
-        out, ob, d = mcheck.judge(rec, ("C05",), case)
+        out, ob, d = mcheck.judge(rec, ("C05",), case, extra=sp_list, want=mcheck.all_present(case) if (i // 40) % 6 == 5 else None)
         if KEEP is not None:
             KEEP.add(case)
-        if d is not None and not d.of("C05"):
+        if d is not None and not d.of("C05") and not [x for x in d.items if sp_list(x[0], x[1])]:
             for phrases, ticks in chunk:
                 classes(rec, phrases, ticks)
                 if phrases:
